@@ -108,6 +108,7 @@ func RunCheck(p *Prog, o RunOpt) *CheckRun {
 				}
 			}()
 			synctest.Test(curT, func(t *testing.T) {
+				w.inBubble = true
 				body()
 				cr.finishWaiters(synctest.Wait)
 			})
